@@ -52,10 +52,16 @@ func cycleTag(args string) (func(io.Writer, render.Context) error, error) {
 		if loopVar == nil {
 			return ctx.Errorf("cycle must be within a forloop")
 		}
-		// The next few lines could panic if the user spoofs us by creating their own loop object.
-		// “C++ protects against accident, not against fraud.” – Bjarne Stroustrup
-		loopRec := loopVar.(map[string]any)
-		cycleMap := loopRec[".cycles"].(map[string]int)
+		// The caller's bindings may define their own "forloop"; only a loop record made by
+		// loopRenderer.render carries cycleCounters.
+		loopRec, ok := loopVar.(map[string]any)
+		if !ok {
+			return ctx.Errorf("cycle must be within a forloop")
+		}
+		cycleMap, ok := loopRec[".cycles"].(cycleCounters)
+		if !ok {
+			return ctx.Errorf("cycle must be within a forloop")
+		}
 		group, values := cycle.Group, cycle.Values
 		n := cycleMap[group]
 		cycleMap[group] = n + 1
@@ -100,6 +106,11 @@ func loopTagCompiler(node render.BlockNode) (func(io.Writer, render.Context) err
 	}, nil
 }
 
+// cycleCounters holds the per-loop positions of the cycle tag. It is a distinct unexported
+// type so that a "forloop" value supplied in the caller's bindings is never taken for (and
+// written as) the loop's own record.
+type cycleCounters map[string]int
+
 type loopRenderer struct {
 	expressions.Loop
 	tagName string
@@ -117,7 +128,7 @@ func (loop loopRenderer) render(iter iterable, w io.Writer, ctx render.Context) 
 		ctx.Set(forloopVarName, index)
 		ctx.Set(loop.Variable, forloop)
 	}(ctx.Get(forloopVarName), ctx.Get(loop.Variable))
-	cycleMap := map[string]int{}
+	cycleMap := cycleCounters{}
 loop:
 	for i, l := 0, iter.Len(); i < l; i++ {
 		ctx.Set(loop.Variable, iter.Index(i))
